@@ -445,8 +445,8 @@ fn sstrategy(tier: Tier) -> BoxedStrategy<SCase> {
     let maxlen = tier.pick(60usize, 200usize);
     (
         prop_oneof![
-            (1usize..=32, 1usize..=6).prop_map(|(w, d)| SCfg::Cms { w, d }),
-            (4usize..=12).prop_map(|b| SCfg::Hll { b }),
+            (prop_oneof![6 => 1usize..=32, 1 => 1usize..=600], prop_oneof![6 => 1usize..=6, 1 => 1usize..=20]).prop_map(|(w, d)| SCfg::Cms { w, d }),
+            prop_oneof![6 => 4usize..=12, 1 => 4usize..=18].prop_map(|b| SCfg::Hll { b }),
         ],
         hkind_any(),
         prop::collection::vec(key_spec(), 1..40),
